@@ -257,7 +257,8 @@ Definition closing_wf (cl : option (ptype * dec * list N)) : bool :=
 Definition unit_wf (u : option raw_unit) : bool :=
   match u with Some ru => ident_ok (u_comm ru) && closing_wf (u_closing ru) | None => true end.
 Definition rawpost_wf (rp : raw_post) : bool :=
-  name_ok (rp_acc rp) && acct_sem_ok (rp_acc rp) && fits (rp_amount rp) && unit_wf (rp_unit rp).
+  name_ok (rp_acc rp) && acct_sem_ok (rp_acc rp) && fits (rp_amount rp) && unit_wf (rp_unit rp)
+  && unit_sem_ok (rp_unit rp).
 Definition ocomment_ok (c : option (list N)) : bool := opt_ok no_eol c.
 
 Lemma take_closing_spec s cl r : take_closing s = Some (cl, r) -> closing_wf cl = true /\ suffix r s.
@@ -337,8 +338,9 @@ Proof.
   - destruct (is_nil sp1); [discriminate|].
     destruct (take_value (c :: r2')) as [[[amt u] r3]|] eqn:E3; [|discriminate].
     destruct (take_value_spec _ _ _ _ E3) as (Fa & Wu & S3).
+    destruct (unit_sem_ok u) eqn:Eus; [|discriminate]. cbn [negb].
     destruct (take_comment (snd (span is_sp r3))) as [cm|] eqn:E4; [|discriminate]. intro H. injection H as <-.
-    cbn [pline_wf]. unfold rawpost_wf. cbn [rp_acc rp_amount rp_unit]. rewrite Hn, Es, Fa, Wu. cbn [andb].
+    cbn [pline_wf]. unfold rawpost_wf. cbn [rp_acc rp_amount rp_unit]. rewrite Hn, Es, Fa, Wu, Eus. cbn [andb].
     apply (take_comment_ok _ _ (suffix_no_eol _ _ (snd_span_suffix _ _) (suffix_no_eol _ _ S3 Hr2)) E4).
 Qed.
 
